@@ -530,6 +530,8 @@ def main(argv: Sequence[str]) -> int:
     ap.add_argument('--tier', default=os.environ.get('VERIF_TIER', 'quick'))
     ap.add_argument('--replay')
     a = ap.parse_args(argv)
+    if a.replay:
+        a.replay = os.path.abspath(a.replay)       # (the check changes into a scratch directory below)
     seed = int(os.environ.get('VERIF_SEED', '20260925'))
     sys.path.insert(0, os.path.join(VERIF, 'harness'))
     mod = importlib.import_module('props.' + a.pid)
